@@ -168,6 +168,67 @@ class Check:
         return 1 if viol else 0
 
 
+class Sub:
+    """view of a Check under which another property's rule runs as a prerequisite: rule ids are prefixed (`C14.R4`), instances can be
+    filtered by key, floors and advisories of the borrowed rule are kept under the prefixed id"""
+
+    def __init__(self, chk, prefix, only=None):
+        self._chk = chk
+        self._prefix = prefix
+        self._only = only
+        self.pid = chk.pid
+        self.tier = chk.tier
+        self.stats = {}
+        self.extra = {}
+        self.samples = []
+        self.advisories = []
+        self.inst = chk.inst
+
+    def _r(self, rule):
+        return "%s.%s" % (self._prefix, rule)
+
+    def rule(self, rid, text):
+        self._chk.rule(self._r(rid), "[prerequisite shared with %s] %s" % (self._prefix, text))
+
+    def ok(self, rule, key, loc="", detail=None, nontrivial=True):
+        if self._only is None or self._only(key):
+            self._chk.ok(self._r(rule), key, loc, detail, nontrivial)
+
+    def fail(self, rule, key, loc, what, witness=None):
+        if self._only is None or self._only(key):
+            self._chk.fail(self._r(rule), key, loc, what, witness)
+
+    def verdict(self, cond, rule, key, loc, what_if_fail, detail=None, witness=None, nontrivial=True):
+        if cond:
+            self.ok(rule, key, loc, detail, nontrivial)
+        else:
+            self.fail(rule, key, loc, what_if_fail, witness)
+        return cond
+
+    def anchor_missing(self, rule, what, loc=""):
+        self._chk.anchor_missing(self._r(rule), what, loc)
+
+    def floor(self, rule, seen, floor, what):
+        if self._only is None:
+            self._chk.floor(self._r(rule), seen, floor, what)
+
+    def sample(self, obj):
+        pass
+
+    def advisory(self, text):
+        pass
+
+    def guard(self, rule, fn, *a, **kw):
+        try:
+            return fn(self, *a, **kw)
+        except AnchorMissing as e:
+            self.anchor_missing(rule, str(e))
+        except Exception as e:
+            import traceback
+            tb = traceback.format_exc().strip().splitlines()
+            self.anchor_missing(rule, "engine error %s: %s @ %s" % (type(e).__name__, e, tb[-3].strip() if len(tb) >= 3 else ""))
+
+
 def load_known():
     if not os.path.exists(KNOWN):
         return []
